@@ -98,7 +98,9 @@ def pair_case(draw, max_mut, tname=None, nested=False, force_how=None):
         muts.append(e)
     rev = []
     if how in ("clone", "deepcopy") and (force_how or draw(st.booleans())):
-        scratch_b = clone_of(make_obj(a))
+        # the catalogue (and its generator preconditions, e.g. edits.live_propagation_hazard) is drawn on
+        # an object obtained the same way as B will be
+        scratch_b = __import__("copy").deepcopy(make_obj(a)) if how == "deepcopy" else clone_of(make_obj(a))
         for _ in range(draw(st.integers(1, 3))):
             e = draw(edits.draw_edit(scratch_b, focus=True))
             edits.apply_edit(scratch_b, e)
